@@ -80,6 +80,10 @@ func (c *Ctx) ruleSitesIMM() {
 	for _, s := range sites {
 		c.inSiteContext(s, func() {
 			si := c.buildSiteInfo(s)
+			if si.Dead != "" {
+				c.ok(rule+"/DEAD-CONTEXT", si.Name, P.Pos(s.Alloc.Pos()), "no violation can be produced through this call path: its conditions contain "+si.Dead)
+				return
+			}
 			perCode[s.Code]++
 			c.checkFlow(si, rule)
 			receiverForm := false
@@ -376,6 +380,10 @@ func (c *Ctx) ruleSitesCTOR() {
 	for _, s := range sites {
 		c.inSiteContext(s, func() {
 			si := c.buildSiteInfo(s)
+			if si.Dead != "" {
+				c.ok(rule+"/DEAD-CONTEXT", si.Name, P.Pos(s.Alloc.Pos()), "no violation can be produced through this call path: its conditions contain "+si.Dead)
+				return
+			}
 			perCode[s.Code]++
 			c.checkFlow(si, rule)
 			var detail string
@@ -544,10 +552,22 @@ func (c *Ctx) inSiteContext(s *ReportSite, f func()) {
 	for top.Parent() != nil {
 		top = top.Parent()
 	}
-	pins, _ := c.P.ContextPins(top)
-	// a helper that merely CREATES the violation for several callers (the site is analysed once per caller, Via)
-	// must not be pinned itself
-	delete(pins, top)
+	root := top
+	if s.Via != nil {
+		// the violation is built by a helper on behalf of its caller: the context is the caller's
+		root = s.Via.Parent()
+		for root.Parent() != nil {
+			root = root.Parent()
+		}
+	}
+	pins, _ := c.P.ContextPins(root)
+	if s.Via != nil && s.Fn.Parent() == nil {
+		pins[s.Fn] = s.Via
+	} else {
+		// a helper that merely CREATES the violation for several callers (the site is analysed once per caller,
+		// Via) must not be pinned to one of them by accident
+		delete(pins, top)
+	}
 	c.P.PinnedAll(pins, f)
 }
 
@@ -571,6 +591,10 @@ func (c *Ctx) ruleSitesTONL() {
 	for _, s := range sites {
 		c.inSiteContext(s, func() {
 			si := c.buildSiteInfo(s)
+			if si.Dead != "" {
+				c.ok(rule+"/DEAD-CONTEXT", si.Name, P.Pos(s.Alloc.Pos()), "no violation can be produced through this call path: its conditions contain "+si.Dead)
+				return
+			}
 			perCode[s.Code]++
 			c.checkFlow(si, rule)
 			var detail string
@@ -611,7 +635,8 @@ func (c *Ctx) ruleSitesTONL() {
 					if !c.rootsAre(a[2], func(r ssa.Value) bool { return fieldLoad(r, "go/ast.Ident", "Name") != nil }) {
 						return false, "queried function name is not the called identifier's name"
 					}
-					if P.isPassPkgCall(a[1], "Path") {
+					// (pass.Pkg.Path() alone is not enough: a function made visible by a dot import is declared elsewhere)
+					if c.declPkgOfCalledIdent(si, a[1]) {
 						direct = true
 						return true, ""
 					}
@@ -622,7 +647,7 @@ func (c *Ctx) ruleSitesTONL() {
 						viaPkgName = true
 						return true, ""
 					}
-					return false, "package argument is neither pass.Pkg.Path() nor <PkgName>.Imported().Path(): " + short(P.DescDeep(a[1]))
+					return false, "package argument is none of pass.Pkg.Path(), <PkgName>.Imported().Path(), Uses[<called identifier>].(*types.Func).Pkg().Path(): " + short(P.DescDeep(a[1]))
 				}, &detail))
 				c.require(si, rule, "FUNCS-INDEX(+)", mem, detail)
 				if direct {
@@ -723,6 +748,68 @@ func (c *Ctx) ruleSitesTONL() {
 
 // isPkgLevelFuncTest: literal (direct or a helper call) that implies TypesInfo.Uses[ident] is a *types.Func
 // declared at the package scope of pass.Pkg.
+// declPkgOfCalledIdent: v is the import path of the package that declares the function the called identifier
+// resolves to - Uses[ident].(*types.Func).Pkg().Path() (own package or a dot-imported one); pass.Pkg.Path() is
+// accepted as an alternative (hand-built passes without type information), the empty string only as the value of a
+// helper's "not a package-level function" answer whose ok result guards the use.
+func (c *Ctx) declPkgOfCalledIdent(si *siteInfo, v ssa.Value) bool {
+	P := c.P
+	sawObj := false
+	okFlagGuards := false
+	if ex, ok := v.(*ssa.Extract); ok {
+		for _, l := range si.All {
+			if l.Kind == "cond" && l.Pos && l.Val != nil {
+				if e2, ok := l.Val.(*ssa.Extract); ok && e2.Tuple == ex.Tuple && e2.Index != ex.Index {
+					okFlagGuards = true
+				}
+			}
+		}
+	}
+	all := P.RootsAllDeep(v, func(r ssa.Value) bool {
+		if cs, ok := r.(*ssa.Const); ok && cs.Value != nil && cs.Value.ExactString() == `""` {
+			return okFlagGuards
+		}
+		if P.isPassPkgCall(r, "Path") {
+			return true
+		}
+		pc := P.CallTo(r, "(*go/types.Package).Path")
+		if pc == nil {
+			return false
+		}
+		okPkg := P.RootsAllDeep(pc.Call.Args[0], func(q ssa.Value) bool {
+			fp := P.CallTo(q, "(*go/types.Func).Pkg")
+			if fp == nil {
+				return false
+			}
+			return P.RootsAllDeep(fp.Call.Args[0], func(o ssa.Value) bool {
+				// Uses[ident].(*types.Func) with ident = CallExpr.Fun of the visited call
+				var ta *ssa.TypeAssert
+				switch x := o.(type) {
+				case *ssa.Extract:
+					ta, _ = x.Tuple.(*ssa.TypeAssert)
+				case *ssa.TypeAssert:
+					ta = x
+				}
+				if ta == nil || typeStr(ta.AssertedType) != "*go/types.Func" {
+					return false
+				}
+				return P.RootsAllDeep(ta.X, func(m ssa.Value) bool {
+					lk, ok := m.(*ssa.Lookup)
+					if !ok || !P.RootsAllDeep(lk.X, func(u ssa.Value) bool { return fieldLoad(u, "go/types.Info", "Uses") != nil }) {
+						return false
+					}
+					return strings.Contains(P.DescDeep(lk.Index), "go/ast.CallExpr.Fun")
+				})
+			})
+		})
+		if okPkg {
+			sawObj = true
+		}
+		return okPkg
+	})
+	return all && sawObj
+}
+
 func (c *Ctx) isPkgLevelFuncTest(l Lit) bool {
 	P := c.P
 	usesFunc := func(x Lit) bool {
@@ -738,11 +825,11 @@ func (c *Ctx) isPkgLevelFuncTest(l Lit) bool {
 	if usesFunc(l) {
 		return true
 	}
-	call := litCall(l)
+	call, k := P.litHelperCall(l)
 	if call == nil || call.Call.StaticCallee() == nil || !P.IsProductFunc(call.Call.StaticCallee()) {
 		return false
 	}
-	sum := P.BoolSummary(call.Call.StaticCallee())
+	sum := P.BoolSummaryK(call.Call.StaticCallee(), k, false)
 	if !sum.ok {
 		return false
 	}
@@ -799,8 +886,21 @@ func (c *Ctx) ruleSitesPKGO() {
 	for _, s := range sites {
 		c.inSiteContext(s, func() {
 			si := c.buildSiteInfo(s)
+			if si.Dead != "" {
+				c.ok(rule+"/DEAD-CONTEXT", si.Name, P.Pos(s.Alloc.Pos()), "no violation can be produced through this call path: its conditions contain "+si.Dead)
+				return
+			}
 			perCode[s.Code]++
 			c.checkFlow(si, rule)
+			// the unqualified-identifier path applies to identifiers that are not the Sel of a selector (those are
+			// handled, once, by the selector path)
+			si.take("unqualified-ident", func(l Lit) bool {
+				if l.Kind != "cond" || l.Pos || l.Val == nil {
+					return false
+				}
+				lk, isLk := l.Val.(*ssa.Lookup)
+				return isLk && c.isSelectorIdentSet(lk.X)
+			})
 			f, ok := fams[s.Code]
 			if !ok {
 				c.fail(rule+"/SITE-CODE", si.Name, P.Pos(s.Alloc.Pos()), "packageonly report site with unexpected code "+s.Code)
